@@ -160,6 +160,9 @@ def _context(node: ast.AST, parent: Dict[ast.AST, ast.AST], fi: FuncInfo, model:
             return "ok", "unused"
         if isinstance(p, (ast.Raise, ast.Assert)):
             return "ok", "error message"
+        kwnode = None
+        if isinstance(p, ast.keyword) and isinstance(parent.get(p), ast.Call):
+            kwnode, p = p, parent.get(p)
         if isinstance(p, ast.Call):
             fn = norm(p.func)
             tail = callee_tail(p)
@@ -179,7 +182,7 @@ def _context(node: ast.AST, parent: Dict[ast.AST, ast.AST], fi: FuncInfo, model:
                 idx = [i for i, a in enumerate(p.args) if a is cur]
                 pname = params[idx[0]] if idx and idx[0] < len(params) else None
                 for kw in p.keywords:
-                    if kw.value is cur:
+                    if kw.value is cur or kw is kwnode:
                         pname = kw.arg
                 if pname in TRACKED_PATH_PARAMS | TRACKED_PATH_ATTRS:
                     return "ok", f"passed to {callee.fq}({pname}=), tracked there"
